@@ -420,6 +420,39 @@ def validate_trace(ctx: Ctx, events, name="trace"):
     return reports[-1]["bad"]
 
 
+def moved_cases(fam, cases):
+    """Used, then moved: the arguments are built, every property of them is read, the operation is applied once; then all of
+    them are moved by an exact integer isometry (translation, + point, quarter turn) and the operation is applied to the moved
+    objects.  The result is the specification's result carried along by the same integer map (points by T, hyperplanes by
+    T^-T; cases whose result is a line of 3-space are left to the other variants)."""
+    from ..moved import motions, mh, mp, warm
+    op, dim, kinds = FAMS[fam]
+    out = []
+    for c in cases:
+        if c["e"] != "none" or c["k"] == "line3":
+            continue
+        for mname, mv, T, Ti in motions(dim):
+            if mname == "+point" and any(k == "point" and v[-1] == 0 for k, v in zip(kinds, c["a"])):
+                continue        # point at infinity + point is vector arithmetic (C19), not a translation of the point
+            site = f"{op}({','.join(kinds)})/{dim}D/single/used-then-moved/{mname}"
+            exp = mp(T, c["v"]) if c["k"] == "point" else mh(Ti, c["v"])
+            try:
+                objs = [warm(build(k, v)) for k, v in zip(kinds, c["a"])]
+                _call(op, objs)
+                _call(op, objs[::-1]) if len(objs) == 2 else None
+                st, res = _call(op, [mv(o) for o in objs])
+                if st == "exc":
+                    out.append(dict(cls="raise-on-independent", site=site, stratum=c["s"], case=c, expected={"k": c["k"], "v": exp},
+                                    observed=f"raised {err_name(res)}: {res}"))
+                    continue
+                d = _check_value(res, c["k"], exp)
+                if d is not None:
+                    out.append(dict(cls="value", site=site, stratum=c["s"], case=c, expected={"k": c["k"], "v": exp}, observed=d))
+            except Exception as e:  # noqa: BLE001
+                out.append(dict(cls="value", site=site, stratum=c["s"], case=c, expected={"k": c["k"], "v": exp}, observed=f"raised {type(e).__name__}: {e}"))
+    return out
+
+
 def broadcast_cases(fam, cases):
     """Collections with different numbers of collection axes (trailing axes aligned, as numpy and the unchanged library do):
     a one-axis collection (k,) against a three-axis collection (2, 2, k), in both argument orders, and a (k,) collection in
@@ -571,6 +604,8 @@ def _work(job):
             return complex_cases(job[1])
         if kind == "far":
             return far_cases(job[1], job[2])
+        if kind == "moved":
+            return moved_cases(job[1], job[2])
         if kind == "dtype":
             out = []
             for dt in (np.uint8, np.uint16, np.uint32, np.uint64, np.int16, np.int32, np.float32):
@@ -647,6 +682,10 @@ def run(ctx: Ctx) -> int:
         if f in ("j2pp", "m2ll", "j3ppp", "m3eee") and prop == "C01":
             for i in range(0, len(gsel), 400):
                 jobs.append(("far", f, gsel[i:i + 400]))
+        if prop == "C01" and not f.startswith("rt"):
+            msl = gsel[::max(1, len(gsel) // 240)]
+            for i in range(0, len(msl), 80):
+                jobs.append(("moved", f, msl[i:i + 80]))
         if f in ("j2pp", "m2ll", "j3pp", "m3ee", "j3ppp", "m3eee") and prop == "C01":
             # coordinates stored in narrower / unsigned integer types and in float32 (a slice of the general cases)
             dsl = gsel[::max(1, len(gsel) // 600)]
@@ -729,7 +768,7 @@ def run(ctx: Ctx) -> int:
                 if inscope:
                     ctx.mismatch(m["site"], m["stratum"], m["case"], m["expected"], m["observed"], m["cls"])
             continue
-        if job[0] in ("far", "bcast", "dtype"):
+        if job[0] in ("far", "bcast", "dtype", "moved"):
             nrep += len(job[2])
             for m in res:
                 if m["cls"] == "machinery":
